@@ -18,7 +18,8 @@ def gen_config(rng, want_error=None):
     base = rng.choice([0x0000, 0x00F0, 0x0801, 0x2000, 0x8000, 0xFF00])
     cursor = base
     for i in range(ns):
-        n = rng.randrange(1, 24)
+        # (a segment that is defined but never written - with or without a `start` of its own - contributes nothing)
+        n = rng.randrange(1, 24) if (i == 0 or rng.random() > 0.12) else 0
         r = rng.random()
         if i == 0 or r < 0.3:
             start = cursor + rng.choice([0, 0, 1, 5, 64])            # adjacent or gap
@@ -32,7 +33,8 @@ def gen_config(rng, want_error=None):
         data = bytes((val + k) & 255 for k in range(n))
         val = (val + n + 7) & 255
         segs.append({"name": "s%d" % i, "start": start, "pc": rng.choice([None, None, None, 0x0200, 0x9000]), "write": rng.random() > 0.15,
-                     "bank": (rng.choice(banks)["name"] if banks else None), "data": data, "start_expr": None})
+                     "bank": (rng.choice(banks)["name"] if banks else None), "data": data, "start_expr": None,
+                     "no_start": n == 0 and rng.random() < 0.5})
         cursor = max(cursor, start + n)
     # banks with create-segment = true bring a segment of their own name (default start $2000), defined where the bank is
     implicit = []
@@ -49,7 +51,7 @@ def gen_config(rng, want_error=None):
             j = rng.randrange(0, i)
             gap = rng.choice([0, 0, 1, 16])
             new_start = segs[j]["start"] + len(segs[j]["data"]) + gap
-            if new_start + len(segs[i]["data"]) <= 0x10000:
+            if new_start + len(segs[i]["data"]) <= 0x10000 and not segs[i].get("no_start") and segs[j]["data"]:
                 segs[i]["start"] = new_start
                 segs[i]["start_expr"] = "segments.s%d.end" % j + (" + %d" % gap if gap else "")
     segs = implicit + segs
@@ -92,7 +94,7 @@ def gen_config(rng, want_error=None):
     elif want_error == "no-bank" and banks and len(segs) > 1:
         rng.choice(explicit)["bank"] = None
     elif want_error == "beyond-ffff":
-        s = rng.choice(explicit)
+        s = rng.choice([x for x in explicit if x["data"]])
         s["start"] = 0x10000 - rng.randrange(0, len(s["data"]))
         s["start_expr"] = None
     elif want_error == "prg-multibank" and len(banks) > 1:
@@ -119,7 +121,8 @@ def render_cfg(cfg):
             continue
         lines.append(".define segment {")
         lines.append('    name = "%s"' % s["name"])
-        lines.append("    start = %s" % (s["start_expr"] or "$%04x" % s["start"]))
+        if not s.get("no_start"):
+            lines.append("    start = %s" % (s["start_expr"] or "$%04x" % s["start"]))
         if s["pc"] is not None:
             lines.append("    pc = $%04x" % s["pc"])
         if not s["write"]:
@@ -128,6 +131,8 @@ def render_cfg(cfg):
             lines.append('    bank = "%s"' % s["bank"])
         lines.append("}")
     for s in cfg["segments"]:
+        if not s["data"]:
+            continue
         lines.append('.segment "%s" {' % s["name"])
         lines.append("    .byte " + ", ".join("%d" % b for b in s["data"]))
         lines.append("}")
